@@ -210,6 +210,16 @@ def q3_enqueue_under_sender_lock(ctx, rep):
                       "dispatch entry point reaches a locked enqueue site", "dispatch entry point does not reach any enqueue on the dispatch queue")
     rep.floor(R, "enqueue sites on the dispatch queue", len(seen_sites), 3)
     rep.floor(R, "dispatch entry points", len(entries), 3)
+    # "held" must mean exclusively held: a shared (read) acquisition of the slot's lock lets two
+    # producers run the try_send / evict / retry sequence of the drop arms at the same time
+    from mirq.locks import LOCK_CALLS, default_lock_id
+    shared = []
+    for s in ctx.prog.sites():
+        if LOCK_CALLS.get(s.ck) == "read" and "fmt::" not in (s.body.j.get("impl_trait") or ""):
+            if default_lock_id(ctx.prog, s.body, ctx.prog.bp(s.body).arg_term(s.bb, 0), s.fn) == lock:
+                shared.append(s)
+    rep.check(not shared, R, "sender-lock-exclusive", shared[0].where if shared else "", "%s is only ever acquired exclusively" % lock,
+              "%s is acquired in shared mode in %s: producers are no longer serialised (a DropOldest retry can fail and the item is lost uncounted), nor ordered with close()" % (lock, sorted({short(x.body.path) for x in shared})))
     # sender values must not leave the lock region: no clone of the slot's content
     for b in ctx.prog.bodies:
         bp = ctx.prog.bp(b)
@@ -258,6 +268,27 @@ def q4_close(ctx, rep):
         may, must = ctx.lr(s.body).held_at(s.bb, "term")
         rep.check(lock in must, R, "take-under-lock:%s" % short(s.body.path), s.where, "sender slot emptied with %s held" % lock, "sender slot emptied without holding %s" % lock)
     rep.check(any(s.body.path in reach for s in takes), R, "close-empties-slot", ctx.where(pub_close), "close() empties the sender slot", "close() no longer empties the sender slot")
+    # an open store is closed on every path: whatever happens to the Exit marker, the slot is
+    # emptied (dropping the only sender is what ends the consumer when Exit was rejected)
+    TAKES = ("std::option::Option::take", "std::mem::take", "std::mem::replace")
+    for tb in {s.body.path: s.body for s in takes if s.body.path in reach}.values():
+        pe = ctx.paths(tb)
+        rep.stats["paths"] += len(pe.paths)
+        npaths = 0
+        bad = None
+        for p in pe.paths:
+            if p.end != "return":
+                continue
+            npaths += 1
+            took = any(e.ck in TAKES and e.args and any(st[0] == "field" and st[2] == A.f_tx for st in subterms(e.args[0])) for e in p.calls())
+            if took:
+                continue
+            saw_none = any(k[0] == "discr" and str(v).lstrip("*") == "None" and any(st[0] == "field" and st[2] == A.f_tx for st in subterms(k[1])) for (k, v) in p.decisions)
+            if not saw_none:
+                bad = p
+        if rep.floor(R, "paths through %s" % short(tb.path), npaths, 1, ctx.where(tb)):
+            rep.check(bad is None, R, "open-store-emptied-on-every-path:%s" % short(tb.path), ctx.where(tb), "every path that finds a sender in the slot takes it out",
+                      "path [%s] finds the store open and returns with the sender still in the slot: the consumer sees neither Exit nor disconnection" % (bad.describe() if bad else ""))
     # every enqueue of the Exit marker is dominated by the take in the same body (or under lock)
     n = 0
     for b in ctx.prog.bodies:
@@ -413,6 +444,13 @@ def q7_head_of_queue(ctx, rep):
         if x[0] == "resok":
             x = x[1]
         good = x[0] == "call" and x[2] in CB_RECV and x[1][0] == cb.path
+        if not good and x[0] == "phi":
+            # `match rx.recv_timeout(..) { Ok(i) => return Some(i), Err(Timeout) => continue,
+            # Err(Disconnected) => return None }`: None, or Some of the Ok payload of one recv
+            somes = [m for m in x[1] if not (m[0] == "agg" and m[1].endswith("Option::None"))]
+            pay = [strip_wrap(m[2][0]) for m in somes if m[0] == "agg" and m[1].endswith("Option::Some") and len(m[2]) == 1]
+            good = bool(somes) and len(pay) == len(somes) and all(
+                y[0] == "vfield" and y[2] == "Ok" and y[1][0] == "call" and y[1][2] in CB_RECV and y[1][1][0] == cb.path for y in pay) and len({y[1][1] for y in pay}) == 1
         rep.check(good, R, "receive-returns-head:%s" % short(cb.path), ctx.where(cb), "%s returns crossbeam's recv() result as is (%s)" % (short(cb.path), term_str(rt)), "%s returns %s: items are buffered or re-ordered between the queue and the reducer" % (short(cb.path), term_str(rt)))
         vec_ops = [x_ for x_ in ctx.prog.sites(cb) if x_.ck.startswith("std::vec::Vec::") or x_.ck.startswith("std::collections::")]
         rep.check(not vec_ops, R, "no-buffer-in-receive:%s" % short(cb.path), ctx.where(cb), "no intermediate buffer", "intermediate buffer operations %s" % [v.ck.split("::")[-1] for v in vec_ops])
